@@ -138,6 +138,7 @@ def judgeGb (lines : Array String) : Verdict := Id.run do
       brs := addBr brs (if mode == "from" then "gb-from" else "gb-node")
       brs := addBr brs (if star then (if excl.isEmpty then "gb-star" else "gb-star-exclude") else
         (if dims.isEmpty then "gb-nodims" else if sortStrings dims != dims then "gb-named-unsorted" else "gb-named"))
+      if !star && dims.eraseDups.length < dims.length then brs := addBr brs "gb-named-duplicate"
       if b then brs := addBr brs "gb-byname"
     | ["pt", name, tags, _fields, _time] =>
       let some (isFrom, b, star, dims, excl) := cfg | return .badop l
@@ -308,6 +309,7 @@ def switches : List String → Nat
 
 def judgeIso (lines : Array String) : Verdict := Id.run do
   let mut cfg : Option (String × Nat × Nat × String × List String) := none
+  let mut dupCfg := false   -- the script names a dimension twice
   let mut pts : List (Pt × GroupID) := []
   let mut gps : List (GPoint × String) := []   -- (point as grouping sees it, its structured key)
   let mut full : Option (List (ObsMsg × String)) := none
@@ -320,7 +322,9 @@ def judgeIso (lines : Array String) : Verdict := Id.run do
       let some p2 := p2.toNat? | return .badop l
       if !(["0", "1", "2"].contains b) then return .badop l
       let some dims := parseList dims | return .badop l
-      cfg := some (kind, p1, p2, b, sortStrings dims)
+      -- the dimension list every point of the run carries: the model of determineTagNames (sorted, each dimension once)
+      cfg := some (kind, p1, p2, b, determineTagNames dims [])
+      dupCfg := dims.eraseDups.length < dims.length
     | ["pt", name, tags, fields, time] =>
       let some (_, _, _, mode, dims) := cfg | return .badop l
       let some name := unesc name | return .badop l
@@ -371,7 +375,7 @@ def judgeIso (lines : Array String) : Verdict := Id.run do
   let mut brs : List String := [kind]
   if (distinctKeys keys).length ≥ 3 then brs := addBr brs "groups>=3"
   if mode == "2" then brs := addBr brs "mixed-byname-union"
-  if gps.any (fun pk => pk.1.dims.eraseDups.length < pk.1.dims.length) then brs := addBr brs "duplicate-dimension"
+  if dupCfg then brs := addBr brs "duplicate-dimension"
   if switches keys ≥ 3 then brs := addBr brs "interleaved"
   if (distinctKeys (pts.map (·.2))).length < (distinctKeys keys).length then brs := addBr brs "id-collision-in-run"
   if ptsOnly.any (fun p => p.v == .missing) then brs := addBr brs "field-missing"
